@@ -26,6 +26,7 @@ def run(rep, prog, tier):
     verdict.check_mask_contains(rep, prog, 'C17.1', verdict.DISQUALIFYING, verdict.ADVISORY)
     verdict.check_partition(rep, prog, 'C17.2')
     verdict.check_one_record(rep, prog, 'C17.3')
+    verdict.check_sources_partition(rep, prog, 'C17.3')
     verdict.check_fail_closed(rep, prog, 'C17.4')
     verdict.check_crypto_arm_verdict(rep, prog, 'C17.4')
     check_disqualified_arm(rep, prog)
